@@ -193,6 +193,12 @@ def jobs(tier):
     out.append(Job("update-cache-rounded-rate-new-denominator", "checks.c06:body_update",
                    {"N": 5, "burn": 0, "sub": 1, "round_val": 1, "tracked": ["ppv"], "prefix": [[1, 1], [1, 1], [1, 1]]},
                    expect=("state-None",), opts={"validate": 1}))
+    # labels in {0,1} also arrive as Python / numpy booleans (y_pred = score > 0.5): real bool objects index arrays as masks,
+    # which no proxy imitates, so these runs take concrete labels selected by symbolic bits and compare every field with
+    # the integer run that the jobs above tie to the reference (harness body shared with C16; seed C06-7)
+    for kind in ("bool", "npbool", "mixed"):
+        out.append(Job(f"update-concrete-labels-{kind}", "checks.c16:body_lfr_concrete", {"N": 3, "kind": kind},
+                       expect=("compared",), opts={"validate": 1}))
     for denom in (1, 2, 3):
         out.append(Job(f"sim-bounds-denom{denom}", "checks.c06:body_sim_bounds", {"denom": denom}, expect=("checked",),
                        opts={"validate": 1}))
